@@ -45,6 +45,32 @@ Proof.
   eexists. split; [exact A|exact D].
 Qed.
 
+(* the raw slots: every thread's own slot and the process slot hold afterwards what they held before *)
+Lemma slots_restored_proof :
+  forall (g : gst) (t : nat) (body : list bstep) (n : nat) (is_thr : bool),
+    (t < length (g_threads g))%nat -> ts_phase (thread g t) = PIdle body -> caller_bound g t n is_thr -> g_lock g = None ->
+    let g' := run_sched g (repeat t (length body + 2)) in
+    g_proc g' = g_proc g /\ forall t', ts_slot (thread g' t') = ts_slot (thread g t').
+Proof.
+  intros g t body n is_thr Ht Hph Hb Hl g'. unfold caller_bound in Hb.
+  assert (Et : tick g t = install g t is_thr (CTx t) (PRun (CDb n) is_thr None [] body 0 [])).
+  { unfold tick. rewrite Hph. destruct is_thr; [rewrite Hb; reflexivity|]. destruct Hb as [Hs Hp]. rewrite Hs, Hp. reflexivity. }
+  unfold g'. replace (length body + 2)%nat with (S (length body + 1)) by lia. cbn [repeat run_sched]. rewrite Et.
+  set (g1 := install g t is_thr (CTx t) (PRun (CDb n) is_thr None [] body 0 [])).
+  assert (Ht1 : (t < length (g_threads g1))%nat) by (unfold g1; rewrite length_install; exact Ht).
+  assert (Hth1 : thread g1 t = {| ts_slot := if is_thr then Some (CTx t) else ts_slot (thread g t);
+                                  ts_phase := PRun (CDb n) is_thr None [] body 0 [] |})
+    by (unfold g1; apply thread_install_same; exact Ht).
+  assert (Hp1 : ts_phase (thread g1 t) = PRun (CDb n) is_thr None [] body 0 []) by (rewrite Hth1; reflexivity).
+  assert (Hl1 : locked_by_other g1 t = false) by (unfold locked_by_other, g1; rewrite lock_install, Hl; reflexivity).
+  destruct (alone_steps t body g1 (CDb n) is_thr None [] 0 [] Ht1 Hp1 Hl1) as (_ & _ & (C1 & C2 & _)).
+  split.
+  - rewrite C2. unfold g1. rewrite proc_install. destruct is_thr; [reflexivity|]. destruct Hb as [_ Hp]. rewrite Hp. reflexivity.
+  - intros t'. destruct (Nat.eq_dec t t') as [<-|Hne].
+    + rewrite C1, Hth1. cbn [ts_slot]. destruct is_thr; [rewrite Hb; reflexivity|reflexivity].
+    + rewrite run_repeat_other by exact Hne. unfold g1. rewrite thread_install_other by exact Hne. reflexivity.
+Qed.
+
 (* ------------------------------------------------------------------ several threads *)
 Definition valid_sched (g0 : gst) (sched : list nat) : Prop := Forall (fun t => (t < length (g_threads g0))%nat) sched.
 
@@ -101,3 +127,20 @@ Qed.
 Lemma threads_frame_proof :
   forall (g : gst) (t t' : nat), t <> t' -> thread (tick g t) t' = thread g t'.
 Proof. exact tick_other. Qed.
+
+(* thread-level callers, whatever the process slot holds: the process slot is never touched, and a thread that is
+   not inside its doInTransaction has its own slot as at the start; inside, the slot holds its transaction *)
+Lemma threads_slots_proof :
+  forall (g0 : gst) (sched : list nat) (t : nat),
+    start_threads g0 = true -> valid_sched g0 sched -> (t < length (g_threads g0))%nat ->
+    let g := run_sched g0 sched in
+    g_proc g = g_proc g0 /\
+    match ts_phase (thread g t) with
+    | PRun _ _ _ _ _ _ _ => ts_slot (thread g t) = Some (CTx t)
+    | _ => ts_slot (thread g t) = ts_slot (thread g0 t)
+    end.
+Proof.
+  intros g0 sched t H Hs Ht g. destruct (reach_inv g0 sched H Hs) as (_ & IP & IT & _). split; [exact IP|].
+  destruct (IT t Ht) as [_ It]. unfold inv_thread in It. fold g in It.
+  destruct (ts_phase (thread g t)); [exact It|apply It|apply It].
+Qed.
